@@ -4,7 +4,7 @@
    every character the two functions look at is ASCII).
    Executable definitions only. *)
 From Coq Require Import ZArith List Bool String Ascii DecimalString.
-From PV Require Import Units.Tables.
+From PV Require Import Units.Sig.
 Import ListNotations.
 Local Open Scope string_scope.
 
@@ -102,52 +102,52 @@ Definition parse_exp (divs : Z) (s : string) : option (Z * string) :=
   | EmptyString => Some (divs, s1)
   end.
 
-Fixpoint upd (i : nat) (x : Z) (l : list Z) : list Z :=
-  match l, i with
-  | [], _ => []
-  | _ :: r, O => x :: r
-  | y :: r, S j => y :: upd j x r
-  end.
-
 Inductive scan_result :=
 | ScanDone (s : string) (ret : list Z)     (* i reached 9 *)
 | ScanSlash (s : string) (ret : list Z)    (* a "/" was met: restart at i = 0 with div = -1 *)
 | ScanErr.
 
-(* one sweep of the while loop over the positions in [us] (index, name);
-   divs is +1 before the "/" and -1 after it *)
-Fixpoint scan (us : list (nat * string)) (s : string) (divs : Z) (ret : list Z) : scan_result :=
-  match us with
-  | [] => ScanDone s ret
-  | (i, u) :: rest =>
-      let after_unit (s' : string) (ret' : list Z) :=
+Definition cons_res (r : Z) (x : scan_result) : scan_result :=
+  match x with
+  | ScanDone s l => ScanDone s (r :: l)
+  | ScanSlash s l => ScanSlash s (r :: l)
+  | ScanErr => ScanErr
+  end.
+
+(* One sweep of the while loop over the positions i, i+1, ... whose names are
+   [us]; [ret] holds ret[i], ret[i+1], ... (the entries before i are not looked
+   at any more in this sweep and are put back by [cons_res]).  divs is +1 before
+   the "/" and -1 after it. *)
+Fixpoint scan (us : list string) (ret : list Z) (s : string) (divs : Z) : scan_result :=
+  match us, ret with
+  | u :: rest, r :: ret' =>
+      let after_unit (s' : string) (r' : Z) :=
         if prefix "/" s'
-        then (if (divs =? -1)%Z then ScanErr else ScanSlash (sdrop 1 s') ret')
-        else scan rest s' divs ret' in
+        then (if (divs =? -1)%Z then ScanErr else ScanSlash (sdrop 1 s') (r' :: ret'))
+        else cons_res r' (scan rest ret' s' divs) in
       if prefix u s then
-        if String.eqb u "m" && prefix "mol" s then scan rest s divs ret
+        if String.eqb u "m" && prefix "mol" s then cons_res r (scan rest ret' s divs)
         else
           match parse_exp divs (sdrop (String.length u) s) with
           | None => ScanErr
           | Some (e, s2) =>
-              if negb (nth i ret 0 =? 0)%Z then ScanErr          (* unit used twice *)
+              if negb (r =? 0)%Z then ScanErr          (* unit used twice *)
               else
-                let s3 := match s2 with String "."%char r => r | _ => s2 end in
-                after_unit s3 (upd i e ret)
+                let s3 := match s2 with String "."%char q => q | _ => s2 end in
+                after_unit s3 e
           end
-      else after_unit s ret
+      else after_unit s r
+  | _, _ => ScanDone s ret
   end.
-
-Definition si_positions : list (nat * string) := indexed si_names.
 
 Definition str_to_sisig (unitstr : string) : result (list Z) :=
   let finish (s : string) (ret : list Z) :=
     if String.eqb s "" then Val ret else Raise ValueError in
-  match scan si_positions unitstr 1 sig0 with
+  match scan si_names sig0 unitstr 1 with
   | ScanErr => Raise ValueError
   | ScanDone s ret => finish s ret
   | ScanSlash s ret =>
-      match scan si_positions s (-1) ret with
+      match scan si_names ret s (-1) with
       | ScanDone s' ret' => finish s' ret'
       | _ => Raise ValueError
       end
